@@ -128,12 +128,13 @@ type params struct {
 	steerS       int64 // raw 31-bit value the real server's PADLEN draw is steered to (-1: not steered)
 	steerC       int64 // same for the real client
 	refReadFirst bool  // the reference parses the peer's message before sending its own
+	edgeSeed     int   // 0: PRNG seeds; 1: every SEED of the connection (reference's and steered real ones) all-zero; 2: all-ones
 	seed         uint64
 }
 
 func (p params) String() string {
-	return fmt.Sprintf("pairing=%s scenario=%s c2s=%s s2c=%s refpad=%d steer(server,client)=(%d,%d) refreadfirst=%v seed=%x",
-		pairingNames[p.pairing], scenarioNames[p.scenario], policies[p.polC2S].name, policies[p.polS2C].name, p.refPad, p.steerS, p.steerC, p.refReadFirst, p.seed)
+	return fmt.Sprintf("pairing=%s scenario=%s c2s=%s s2c=%s refpad=%d steer(server,client)=(%d,%d) refreadfirst=%v edgeseed=%d seed=%x",
+		pairingNames[p.pairing], scenarioNames[p.scenario], policies[p.polC2S].name, policies[p.polS2C].name, p.refPad, p.steerS, p.steerC, p.refReadFirst, p.edgeSeed, p.seed)
 }
 
 func script(rng interface{ IntN(int) int }, n, maxTotal int) []int {
@@ -157,16 +158,29 @@ func script(rng interface{ IntN(int) int }, n, maxTotal int) []int {
 
 // steerSource makes the n-th PADLEN draw of real endpoints (an 8-byte draw
 // directly after the 16-byte SEED draw: csrand.IntRange -> math/rand Int31n
-// -> Int63()>>32) come out as targets[n] (when >= 0).
-func steerSource(seed uint64, targets []int64) *steer.Source {
+// -> (Int63()>>32) % 8193) come out as targets[n] (when >= 0).
+//
+// edgeSeed 1/2 additionally turns the SEED draws into all-zero/all-ones: the
+// 16-byte draws other than a 16-byte padding draw, which comes directly behind
+// a PADLEN draw of value 16.  (Steering is only workload shaping and evidence;
+// no verdict depends on it having hit.)
+func steerSource(seed uint64, targets []int64, edgeSeed int) *steer.Source {
 	s := steer.New(seed)
 	prev, k := 0, 0
+	padNext := false
 	s.Hook = func(_ int64, b []byte) { // called with the source's lock held
+		if len(b) == ref.SeedLength && !padNext && edgeSeed != 0 {
+			for i := range b {
+				b[i] = byte(0 - (edgeSeed - 1)) // 0x00 or 0xff
+			}
+		}
+		padNext = false
 		if len(b) == 8 && prev == ref.SeedLength {
 			if k < len(targets) && targets[k] >= 0 {
 				binary.BigEndian.PutUint64(b, uint64(targets[k])<<32)
 			}
 			k++
+			padNext = (binary.BigEndian.Uint64(b)&(1<<63-1))>>32%(ref.MaxPadding+1) == ref.SeedLength
 		}
 		prev = len(b)
 	}
@@ -224,6 +238,18 @@ func runConn(c *mon.Case, r *mon.Run, p params) {
 	up.mismatch, down.mismatch = -1, -1
 	var mu sync.Mutex
 	var wg sync.WaitGroup
+	// the first I/O error of the connection, in order of occurrence (later
+	// ones are fallout of the teardown it triggers)
+	var faultSig, faultDetail string
+	fault := func(op string, ds *dirStats, err error) { // mu held
+		if faultSig == "" {
+			name := "up"
+			if ds == &down {
+				name = "down"
+			}
+			faultSig, faultDetail = op+"-error/"+pn+"/"+name, fmt.Sprintf("%s failed on a healthy connection after %d bytes written / %d delivered in that direction: %v", op, ds.written, ds.delivered, err)
+		}
+	}
 
 	writeOne := func(conn net.Conn, st mon.Stream, sz int, ds *dirStats) bool {
 		mu.Lock()
@@ -245,6 +271,7 @@ func runConn(c *mon.Case, r *mon.Run, p params) {
 		}
 		if err != nil {
 			ds.writeErr = err
+			fault("write", ds, err)
 		}
 		mu.Unlock()
 		return err == nil
@@ -273,9 +300,14 @@ func runConn(c *mon.Case, r *mon.Run, p params) {
 			}
 			if err != nil {
 				ds.readErr = err
+				fault("read", ds, err)
 			}
 			mu.Unlock()
 			if err != nil {
+				// a dead reader means a dead connection: release whoever waits
+				// for window space (no-op when this is the teardown by finish)
+				cw.Close()
+				sw.Close()
 				return
 			}
 		}
@@ -288,23 +320,19 @@ func runConn(c *mon.Case, r *mon.Run, p params) {
 	judge := func(where string) bool {
 		mu.Lock()
 		u, d := up, down
+		fs, fd := faultSig, faultDetail
 		mu.Unlock()
 		if u.broken || d.broken {
 			return false
 		}
+		if fs != "" {
+			viol(fs, "%s", fd)
+			return false
+		}
 		ok := true
 		one := func(name string, ds dirStats, h *memwire.Half) {
-			if ds.writeErr != nil {
-				viol("write-error/"+pn+"/"+name, "Write failed on a healthy connection: %v", ds.writeErr)
-				ok = false
-				return
-			}
 			if ds.mismatch >= 0 {
 				viol("stream-mismatch/"+pn+"/"+name, "byte at offset %d delivered to the reader is not the byte the peer's application wrote there", ds.mismatch)
-				ok = false
-			}
-			if ds.readErr != nil {
-				viol("read-error/"+pn+"/"+name, "Read failed on a healthy connection: %v", ds.readErr)
 				ok = false
 			}
 			if ds.delivered < ds.written {
@@ -343,6 +371,11 @@ func runConn(c *mon.Case, r *mon.Run, p params) {
 		if p.pairing == prRefResp {
 			refOpts.Role = ref.Responder
 		}
+		if p.edgeSeed != 0 {
+			for i := range refOpts.Hello.Seed {
+				refOpts.Hello.Seed[i] = byte(0 - (p.edgeSeed - 1))
+			}
+		}
 		if p.pairing == prRefResp && p.scenario == scServerCoalesced {
 			// message and first payload in ONE write
 			refOpts.ReadFirst, refOpts.FirstData = true, sStream.Bytes(0, sScript[0])
@@ -363,7 +396,7 @@ func runConn(c *mon.Case, r *mon.Run, p params) {
 	if realClient {
 		targets = append(targets, p.steerC)
 	}
-	restore := steer.Install(steerSource(p.seed^0x5eed, targets))
+	restore := steer.Install(steerSource(p.seed^0x5eed, targets, p.edgeSeed))
 	defer restore() // runs after finish(): no goroutine of this connection is left
 
 	var sc, cc net.Conn
@@ -407,7 +440,7 @@ func runConn(c *mon.Case, r *mon.Run, p params) {
 		}
 	}
 	c.Go(func() { close(srvDone) }, func() { side(true) })
-	if p.pairing == prRealReal && (p.steerS >= 0 || p.steerC >= 0) {
+	if p.pairing == prRealReal && (p.steerS >= 0 || p.steerC >= 0 || p.edgeSeed != 0) {
 		// make the order of the two endpoints' random draws explicit: the
 		// server has sent its message and waits for the client's seed
 		synctest.Wait()
@@ -440,6 +473,12 @@ func runConn(c *mon.Case, r *mon.Run, p params) {
 		r.Min("real_padlen_min", int64(ps.PadLen))
 		r.Distinct("real_padlens_seen", fmt.Sprint(ps.PadLen))
 		realPads = append(realPads, int64(ps.PadLen))
+		switch ps.Seed {
+		case [ref.SeedLength]byte{}:
+			r.Count("real_seed_all_zero", 1)
+		case [ref.SeedLength]byte{255, 255, 255, 255, 255, 255, 255, 255, 255, 255, 255, 255, 255, 255, 255, 255}:
+			r.Count("real_seed_all_ones", 1)
+		}
 		return ps
 	}
 	var psS, psC *ref.Parsed
@@ -452,7 +491,12 @@ func runConn(c *mon.Case, r *mon.Run, p params) {
 	for i, want := range targets { // did steering reach the intended draw? (evidence only)
 		if want >= 0 && i < len(realPads) {
 			if realPads[i] == want%(ref.MaxPadding+1) {
-				r.Count(fmt.Sprintf("steered_real_padlen_%d", realPads[i]), 1)
+				switch realPads[i] {
+				case 0, ref.MaxPadding:
+					r.Count(fmt.Sprintf("steered_real_padlen_%d", realPads[i]), 1)
+				default:
+					r.Count("steered_real_padlen_other", 1)
+				}
 			} else {
 				r.Count("steer_missed", 1)
 			}
@@ -475,6 +519,9 @@ func runConn(c *mon.Case, r *mon.Run, p params) {
 		}
 		if len(refOpts.FirstData) > 0 {
 			r.Count("ref_hello_and_data_in_one_write", 1)
+		}
+		if p.edgeSeed != 0 {
+			r.Count("ref_seed_all_zero_or_all_ones", 1)
 		}
 		_ = refC
 	}
@@ -645,7 +692,7 @@ func runCorrupt(c *mon.Case, r *mon.Run, server bool, cor corrupt, pol int, seed
 	}
 	toReal := refWire.Out()
 	toReal.SetPolicy(policies[pol].mk(seed ^ 3))
-	restore := steer.Install(steerSource(seed^0x5eed, nil))
+	restore := steer.Install(steerSource(seed^0x5eed, nil, 0))
 	defer restore()
 
 	var conn net.Conn
@@ -786,11 +833,11 @@ func steerChoice(k int, rng interface{ IntN(int) int }) int64 {
 func TestCheck(t *testing.T) {
 	r := mon.Start(t, "C14")
 	defer r.Finish()
-	r.Note("rule", "three parts. (1) grid of pairing (real<->real, reference initiator<->real server, real client<->reference responder) x scenario (client first, server payload coalesced with its key-establishment message, client payload coalesced with its message, both at once, idle gaps, lockstep with a quiescence judgement after every write) x reader chunk policy (all-available, 1, 3, 4, 8, 15, 16, 17, 23, 24, 25, PRNG, 4 KiB back-pressure window after the handshake) on the first direction with a rotating policy on the other; PRNG write scripts from {0,1,2,15,16,17,4096,65536,PRNG<3000} with virtual pauses; the real endpoints' own PADLEN draw steered to 0, 8192 and PRNG values in part of the connections. (2) padding sweep: the reference sends every padding length of the tier's list in both roles, scenario and chunk policies rotating with the length. (3) non-conforming messages sent by the reference to a real server and to a real client: magic at Hamming distance 1 (all 32), byte-swapped/0/all-ones/PRNG magics, PADLEN in {8193, 8194, 65536, byte-swapped 8192, 2^31-1, 2^31, 2^32-1, PRNG > 8192}, both wrong, and conforming controls (PADLEN 0, 8192, PRNG) through the same driver, each under several chunk policies. Every real endpoint has one reader and one writer goroutine under the race detector; everything a real endpoint writes is also decoded passively by the reference from the wire transcript. Non-trivial = handshake completed and payload flowed (parts 1, 2) or a verdict accepted/rejected was reached (part 3); distinct = distinct parameter tuple.")
+	r.Note("rule", "three parts. (1) grid of pairing (real<->real, reference initiator<->real server, real client<->reference responder) x scenario (client first, server payload coalesced with its key-establishment message, client payload coalesced with its message, both at once, idle gaps, lockstep with a quiescence judgement after every write) x reader chunk policy (all-available, 1, 3, 4, 8, 15, 16, 17, 23, 24, 25, PRNG, 4 KiB back-pressure window after the handshake) on the first direction with a rotating policy on the other; PRNG write scripts from {0,1,2,15,16,17,4096,65536,PRNG<3000} with virtual pauses; the real endpoints' own PADLEN draw steered to 0, 8192 and PRNG values, and every SEED of the connection (reference's and real ones) set to all-zero or all-ones, in part of the connections. (2) padding sweep: the reference sends every padding length of the tier's list in both roles, scenario and chunk policies rotating with the length. (3) non-conforming messages sent by the reference to a real server and to a real client: magic at Hamming distance 1 (all 32), byte-swapped/0/all-ones/PRNG magics, PADLEN in {8193, 8194, 65536, byte-swapped 8192, 2^31-1, 2^31, 2^32-1, PRNG > 8192}, both wrong, and conforming controls (PADLEN 0, 8192, PRNG) through the same driver, each under several chunk policies. Every real endpoint has one reader and one writer goroutine under the race detector; everything a real endpoint writes is also decoded passively by the reference from the wire transcript. Non-trivial = handshake completed and payload flowed (parts 1, 2) or a verdict accepted/rejected was reached (part 3); distinct = distinct parameter tuple.")
 	r.Note("exhaustive_part", fmt.Sprintf("reference padding lengths: %s; wrong magic values at Hamming distance 1: all 32, against both real roles", map[bool]string{false: "0, 1, 8191, 8192 and 64 PRNG values", true: "every value 0..8192 in both roles"}[r.Thorough()]))
 
 	// ---- part 1: grid
-	nPer := r.Pick(1, 8)
+	nPer := r.Pick(2, 30)
 	for pairing := 0; pairing < nPairings; pairing++ {
 		for scen := 0; scen < nScenarios; scen++ {
 			for pi := range policies {
@@ -807,6 +854,9 @@ func TestCheck(t *testing.T) {
 						}
 						if pairing != prRealReal {
 							p.refPad = []int{0, 1, ref.MaxPadding - 1, ref.MaxPadding, rng.IntN(ref.MaxPadding + 1), rng.IntN(ref.MaxPadding + 1)}[rng.IntN(6)]
+						}
+						if e := (k*13 + pi + 2*scen + pairing) % 9; e >= 7 {
+							p.edgeSeed = e - 6
 						}
 						sk := k + pi + scen
 						if pairing != prRefResp {
@@ -829,23 +879,28 @@ func TestCheck(t *testing.T) {
 			pads = append(pads, v)
 		}
 	} else {
-		pads = []int{0, 1, ref.MaxPadding - 1, ref.MaxPadding}
+		pads = []int{0, 1, 2, 7, 8, 15, 16, 17, ref.MaxPadding - 2, ref.MaxPadding - 1, ref.MaxPadding}
 		prng := mon.NewRand(r.Sub("padlist"))
-		for len(pads) < 68 {
+		for len(pads) < 11+64 {
 			pads = append(pads, 2+prng.IntN(ref.MaxPadding-3))
 		}
 	}
-	blk := r.Pick(17, 64)
+	blk := r.Pick(15, 64)
+	reps := r.Pick(1, 2) // passes over the list, with different scenario/policy/seed per length
 	for _, pairing := range []int{prRefInit, prRefResp} {
-		for b := 0; b*blk < len(pads); b++ {
+		for b := 0; b*blk < len(pads)*reps; b++ {
 			pairing, b := pairing, b
 			r.Case(fmt.Sprintf("pad/%s/b%03d", pairingNames[pairing], b), func(c *mon.Case) {
-				for i := b * blk; i < (b+1)*blk && i < len(pads); i++ {
-					seed := r.Sub("pad", pairing, i)
+				for j := b * blk; j < (b+1)*blk && j < len(pads)*reps; j++ {
+					i, rep := j%len(pads), j/len(pads)
+					seed := r.Sub("pad", pairing, j)
 					rng := mon.NewRand(seed ^ 0x9)
-					p := params{pairing: pairing, scenario: i % nScenarios, refPad: pads[i], steerS: -1, steerC: -1, refReadFirst: rng.IntN(2) == 0, seed: seed}
+					p := params{pairing: pairing, scenario: (i + 5*rep) % nScenarios, refPad: pads[i], steerS: -1, steerC: -1, refReadFirst: rng.IntN(2) == 0, seed: seed}
+					if e := j % 11; e >= 9 {
+						p.edgeSeed = e - 8
+					}
 					// what the real endpoint reads (the reference's output) cycles through every policy
-					mine, other := (i/nScenarios)%len(policies), rng.IntN(len(policies))
+					mine, other := (i/nScenarios+7*rep)%len(policies), rng.IntN(len(policies))
 					if pairing == prRefInit {
 						p.polC2S, p.polS2C = mine, other
 						p.steerS = steerChoice(i/7, rng)
